@@ -1,8 +1,9 @@
 """C07 (E1, see DESIGN.md section 6)."""
 from vf.common import Check, assert_repo_import, tier, seed
-from vf import gen, e1run
+from vf import gen, e1run, hooks
 
-KINDS = ("nonrandom_changed", "under_constrained", "over_constrained", "returned_values_violate", "spurious_failure", "missed_failure", "other_exception", "out_of_type", "unmapped_var")
+KINDS = ("nonrandom_changed", "under_constrained", "over_constrained", "returned_values_violate", "spurious_failure", "missed_failure", "other_exception", "out_of_type", "unmapped_var",
+         "bound_excludes", "order_violation", "not_randomised")
 
 
 def canaries(chk):
@@ -52,7 +53,10 @@ def main():
     canaries(chk)
     specs = gen.c07_programs(t, seed())
     chk.extra["rule"] = "one evaluation = one randomize call decided by Q1/Q2/Q3/Q5; distinct = distinct (program, call position)"
-    e1run.run_specs(chk, specs, KINDS, sig_fn=lambda spec, f: {"cond_class": spec["cond_class"]} if "cond_class" in spec else {})
+    # a disabled block contributes neither its inferred ranges (bounds_hook: every feasible value lies in the domain handed to the
+    # swizzler) nor its solve_order directives (order_hook: the ordered groups follow exactly the directives of the enabled blocks)
+    e1run.run_specs(chk, specs, KINDS, opts={"hooks": [hooks.bounds_hook, hooks.order_hook]},
+                    sig_fn=lambda spec, f: {"cond_class": spec["cond_class"]} if "cond_class" in spec else {})
     chk.finish()
 
 
